@@ -28,6 +28,7 @@ def register(reg):
     BOUND = "typeis(self.env, 'str') and len(self.env) > 0 and truthy(env_get(self.env))"
     ADOPT = ["Config._parent@*", "Config._key@*", "Config._container@*"]
     C("core:Field._get_env_value", params={"cfg": "ref:Config"}, returns="any", modifies=["fresh", "ncalls"] + ADOPT,
+      defines_ensures={"C14.the-environment-value": "result == env_value(self, cfg)"},
       ensures={
           "C14.no-binding-or-empty-variable-gives-none": "implies(not (%s), result is None)" % BOUND,
           "C14.value-satisfies-the-field": "result is None or accepts(self, result)",
@@ -43,6 +44,7 @@ def register(reg):
           "C12.touches-only-its-own-key": 'forall("k:key", "implies(k != self._key, has(cfg._data, k) == old(has(cfg._data, k)) and get(cfg._data, k) == old(get(cfg._data, k))'
                                           ' and has(cfg._default_value_keys, k) == old(has(cfg._default_value_keys, k)))")',
           "C14.without-binding-the-declared-default": "implies(not (%s) and not callable_v(self._default), get(cfg._data, self._key) == self._default)" % BOUND,
+          "C14.a-bound-variable's-validated-value-is-installed-whatever-its-truth-value": "implies(env_value(self, cfg) is not None, get(cfg._data, self._key) == env_value(self, cfg))",
           "C13.nothing-else-changes": "heap_unchanged('Config._parent', 'Config._key', 'Config._container', cfg._data, cfg._default_value_keys)",
       },
       raises={"C14+C15.invalid-environment-value": "exc_is(Exception)",
